@@ -26,6 +26,7 @@ import (
 	"github.com/teleport-network/teleport/app"
 	erc20contracts "github.com/teleport-network/teleport/syscontracts/erc20"
 	aggtypes "github.com/teleport-network/teleport/x/aggregate/types"
+	evmtypes "github.com/tharsis/ethermint/x/evm/types"
 )
 
 func init() { Drivers["ics20"] = driveICS20 }
@@ -41,6 +42,7 @@ type ICSWorld struct {
 	PathC *ibctesting.Path      // EndpointA on C, EndpointB on B
 	seqC  uint64
 	X     common.Address // an externally-owned ERC-20 on B (deployed and mintable by XOwner)
+	Y     common.Address // another one whose transfer takes a cut (ERC20DirectBalanceManipulation); its supply is with XOwner
 }
 
 // the deployer and minter of X is the fee collector's address (an existing account whose nonce nobody else uses);
@@ -79,6 +81,15 @@ func newICSWorld(t *testing.T) *ICSWorld {
 	must(err)
 	if res.Failed() {
 		panic("deploy X: " + res.VmError)
+	}
+	nonce = w.appB().EvmKeeper.GetNonce(w.B.GetContext(), w.xOwner())
+	w.Y = crypto.CreateAddress(w.xOwner(), nonce)
+	yctor, err := erc20contracts.ERC20DirectBalanceManipulationContract.ABI.Pack("", big.NewInt(1000))
+	must(err)
+	res, err = k.CallEVMWithData(w.B.GetContext(), w.xOwner(), nil, append(append([]byte{}, erc20contracts.ERC20DirectBalanceManipulationContract.Bin...), yctor...))
+	must(err)
+	if res.Failed() {
+		panic("deploy Y: " + res.VmError)
 	}
 	return w
 }
@@ -134,8 +145,13 @@ func (w *ICSWorld) project(denoms map[string]string) M {
 	ctx := w.B.GetContext()
 	a := w.appB()
 	mod := authtypes.NewModuleAddress(aggtypes.ModuleName)
-	st := M{"enabled": a.AggregateKeeper.GetParams(ctx).EnableAggregate, "xreg": a.AggregateKeeper.IsERC20Registered(ctx, w.X),
-		"mx": w.viewBal(w.X, common.BytesToAddress(mod))}
+	xbad := a.AggregateKeeper.IsERC20Registered(ctx, w.Y)
+	xc := w.X
+	if xbad {
+		xc = w.Y
+	}
+	st := M{"enabled": a.AggregateKeeper.GetParams(ctx).EnableAggregate, "xreg": a.AggregateKeeper.IsERC20Registered(ctx, w.X) || xbad, "xbad": xbad,
+		"mx": w.viewBal(xc, common.BytesToAddress(mod))}
 	for abs, d := range denoms {
 		e := M{"vbal": a.BankKeeper.GetBalance(ctx, w.userB(), d).Amount.Int64(), "esc": a.BankKeeper.GetBalance(ctx, mod, d).Amount.Int64(),
 			"sup": a.BankKeeper.GetSupply(ctx, d).Amount.Int64(), "registered": false, "pairon": false, "tok": 0, "ext": false}
@@ -143,7 +159,7 @@ func (w *ICSWorld) project(denoms map[string]string) M {
 			id := a.AggregateKeeper.GetDenomMap(ctx, d)
 			p, _ := a.AggregateKeeper.GetTokenPair(ctx, id)
 			e["registered"], e["pairon"], e["tok"] = true, p.Enabled, w.viewBal(c, common.BytesToAddress(w.userB()))
-			e["ext"] = c == w.X
+			e["ext"] = c == w.X || c == w.Y
 		}
 		st[abs] = e
 	}
@@ -227,18 +243,40 @@ func driveICS20(t *testing.T, in, out string, seed int64) {
 				res, msg := execProposalOn(w, aggtypes.NewToggleTokenRelayProposal("t", "d", denoms[str(st["denom"])]))
 				line["res"], line["msg"] = res, clip(msg)
 			case "RegisterExt":
-				res, msg := execProposalOn(w, aggtypes.NewRegisterERC20Proposal("t", "d", w.X.String()))
+				xc := w.X
+				if b, _ := st["bad"].(bool); b {
+					xc = w.Y
+				}
+				if a.AggregateKeeper.IsERC20Registered(w.B.GetContext(), w.X) || a.AggregateKeeper.IsERC20Registered(w.B.GetContext(), w.Y) {
+					xc = w.X // one external token per behaviour: a second registration names the first again (refused)
+					if a.AggregateKeeper.IsERC20Registered(w.B.GetContext(), w.Y) {
+						xc = w.Y
+					}
+				}
+				res, msg := execProposalOn(w, aggtypes.NewRegisterERC20Proposal("t", "d", xc.String()))
 				line["res"], line["msg"] = res, clip(msg)
 			case "AddExt":
 				d := denoms[str(st["denom"])]
 				md := banktypes.Metadata{Description: "ibc voucher", Base: d, Display: d, Name: "channel-0 " + str(st["denom"]), Symbol: "ibc" + strings.ToUpper(str(st["denom"])),
 					DenomUnits: []*banktypes.DenomUnit{{Denom: d, Exponent: 0}}}
-				res, msg := execProposalOn(w, aggtypes.NewAddCoinProposal("t", "d", md, w.X.String()))
+				xc := w.X
+				if a.AggregateKeeper.IsERC20Registered(w.B.GetContext(), w.Y) {
+					xc = w.Y
+				}
+				res, msg := execProposalOn(w, aggtypes.NewAddCoinProposal("t", "d", md, xc.String()))
 				line["res"], line["msg"] = res, clip(msg)
 			case "Fund":
 				// the owner of X mints to the module account (what the module can pay out for conversions into X)
 				mod := common.BytesToAddress(authtypes.NewModuleAddress(aggtypes.ModuleName))
-				res, err := a.AggregateKeeper.CallEVMWithData(w.B.GetContext(), w.xOwner(), &w.X, mustPack(erc20ABI, "mint", mod, big.NewInt(num(st["n"]))))
+				var res *evmtypes.MsgEthereumTxResponse
+				var err error
+				if a.AggregateKeeper.IsERC20Registered(w.B.GetContext(), w.Y) {
+					// Y has no mint: its owner hands tokens over (a direct transfer to the module arrives in full only with the
+					// contract's own rule; the balance the module ends up with is what the model reads back)
+					res, err = a.AggregateKeeper.CallEVMWithData(w.B.GetContext(), w.xOwner(), &w.Y, mustPack(erc20ABI, "transfer", mod, big.NewInt(num(st["n"]))))
+				} else {
+					res, err = a.AggregateKeeper.CallEVMWithData(w.B.GetContext(), w.xOwner(), &w.X, mustPack(erc20ABI, "mint", mod, big.NewInt(num(st["n"]))))
+				}
 				line["res"] = "ok"
 				if err != nil || res.Failed() {
 					line["res"] = "err"
